@@ -151,6 +151,8 @@ func runC05(c *Ctx) {
 	}
 
 	// ---------------- R-FRESH over all three creators (generalises the R-ALIAS instance above)
+	c05Extras(c)
+	printableRules(c, []string{"z/x509.isPrintable", "z/encoding/asn1.parsePrintableString"})
 	c.FreshObligations(fileScope(w, []string{pkg + ".CreateCertificateRequest", pkg + ".CreateRevocationList", "(*" + pkg + ".Certificate).CreateCRL"}, "x509/x509.go"), "CSR/CRL creation")
 
 	// ---------------- CSR SAN guard
